@@ -62,6 +62,12 @@ typedef struct {
 	void *internal;
 } lzma_stream;
 #define LZMA_VLI_UNKNOWN UINT64_MAX
+/* decoder flags (lzma/container.h), so that a tree that passes them still compiles against the fake library */
+#define LZMA_TELL_NO_CHECK 0x01u
+#define LZMA_TELL_UNSUPPORTED_CHECK 0x02u
+#define LZMA_TELL_ANY_CHECK 0x04u
+#define LZMA_CONCATENATED 0x08u
+#define LZMA_IGNORE_CHECK 0x10u
 #define LZMA_FILTER_X86 0x04
 #define LZMA_FILTER_POWERPC 0x05
 #define LZMA_FILTER_IA64 0x06
